@@ -9,8 +9,10 @@
 //! * free-running stress (search only) whose outcome is compared with the model's schedule-
 //!   independent final state;
 //! * an accounting allocator (always installed in `amh`, inert unless this engine records):
-//!   blocks allocated inside a recording window are tracked until freed; every `dealloc` of a
-//!   tracked block must carry the layout it was allocated with; double frees are caught.
+//!   blocks allocated inside a recording window are tracked; every `dealloc` of a tracked block
+//!   must carry the layout it was allocated with; freed tracked blocks are quarantined until
+//!   the end of the case, so early frees and double frees are reported (with the case) instead
+//!   of corrupting the heap.
 //!
 //! The oracle is written from the statement: contents equal the harness's own copy of the source
 //! through every handle at every moment, all handles alias one address, nothing is freed while a
@@ -117,6 +119,12 @@ pub mod ledger {
                     e.mismatch = true;
                     MISMATCHES.fetch_add(1, Ordering::Relaxed);
                 }
+                // quarantine: the block stays allocated until `reset`, so that a use after free
+                // (e.g. a decrement of a freed count) cannot corrupt the heap and kill the
+                // harness before the case is reported, and a second free of the same address is
+                // unambiguous. Not poisoned: std's debug precondition checks would abort on a
+                // poisoned `len`; the ledger, not the contents, is what reports the early free.
+                forward = false;
             } else if e.state == 2 {
                 e.frees += 1;
                 DOUBLE_FREES.fetch_add(1, Ordering::Relaxed);
@@ -193,7 +201,12 @@ pub mod ledger {
     }
 
     pub fn reset() {
-        with_tab(|t| { t.n = 0; });
+        with_tab(|t| {
+            for e in t.ent[..t.n].iter() {
+                if e.state == 2 { unsafe { System.dealloc(e.ptr as *mut u8, Layout::from_size_align_unchecked(e.size, e.align)); } }
+            }
+            t.n = 0;
+        });
         WATCH.store(0, Ordering::Relaxed);
         MISMATCHES.store(0, Ordering::Relaxed);
         DOUBLE_FREES.store(0, Ordering::Relaxed);
@@ -265,6 +278,8 @@ fn utf8_valid_prefix(b: &[u8]) -> usize {
     }
     i
 }
+
+fn is_hex(a: &str) -> bool { a == "-" || (a.len() % 2 == 0 && !a.is_empty() && a.bytes().all(|c| c.is_ascii_digit() || (b'a'..=b'f').contains(&c))) }
 
 #[derive(Default)]
 struct TokHasher(Vec<String>);
@@ -527,6 +542,9 @@ impl Engine for BytesEngine {
         for line in lines {
             let w: Vec<&str> = line.split_whitespace().collect();
             if w.is_empty() { continue; }
+            // hand-written / shrunk lines may be malformed: the byte-string arguments must be hex
+            let hex_args: &[usize] = match w[0] { "by.new" => &[4], "by.stress" => &[3], "by.str" | "by.debytes" => &[2], "by.scmp" => &[1, 2], _ => &[] };
+            if hex_args.iter().any(|&i| w.get(i).map(|a| !is_hex(a)).unwrap_or(false)) { rec.op(line.clone(), "bad-op"); rec.stat("op/malformed"); continue; }
             match (w[0], w.len()) {
                 ("by.new", 5) => {
                     let (b, path) = (w[1], w[2]);
@@ -745,37 +763,55 @@ impl Engine for BytesEngine {
                 ("by.scmp", 3) => {
                     let (a, b) = (unhex(w[1]), unhex(w[2]));
                     let (Ok(sa), Ok(sb)) = (std::str::from_utf8(&a), std::str::from_utf8(&b)) else { rec.op(line.clone(), "bad-op"); continue };
-                    let (x, y) = (SharedString::from(sa), SharedString::from(sb.to_string()));
-                    let (eq, c, t) = (x == y, x.cmp(&y), toks(&x));
+                    // everything that builds / clones a buffer runs inside a recording window, so
+                    // that a wrong free goes to the ledger's quarantine and not to the heap
+                    let ((eq, c, t, ok, found), win) = ledger::record(|| {
+                        let (x, y) = (SharedString::from(sa), SharedString::from(sb.to_string()));
+                        let (eq, c, t) = (x == y, x.cmp(&y), toks(&x));
+                        let ok = eq == (sa == sb) && c == sa.cmp(sb) && x.partial_cmp(&y) == Some(sa.cmp(sb)) && x.partial_cmp(sb) == Some(sa.cmp(sb))
+                            && (x == *sb) == (sa == sb) && (x == sb) == (sa == sb) && (x == sb.to_string()) == (sa == sb) && c == a.cmp(&b);
+                        let mut set = std::collections::HashSet::new(); set.insert(x.clone());
+                        (eq, c, t, ok, set.contains(sa))
+                    });
                     rec.op(line.clone(), format!("eq={eq} cmp={} hash={t}", ord(c)));
                     rec.stat(format!("str/cmp-{}", ord(c)));
-                    let ok = eq == (sa == sb) && c == sa.cmp(sb) && x.partial_cmp(&y) == Some(sa.cmp(sb)) && x.partial_cmp(sb) == Some(sa.cmp(sb))
-                        && (x == *sb) == (sa == sb) && (x == sb) == (sa == sb) && (x == sb.to_string()) == (sa == sb) && c == a.cmp(&b);
                     if !ok { rec.oracle_fail(format!("cmp-not-slice-like SharedString comparison of {} and {} differs from str's", w[1], w[2])); }
                     if t != toks(sa) { rec.oracle_fail(format!("hash-not-slice-like SharedString feeds the hasher [{t}], str feeds [{}]", toks(sa))); }
-                    let mut set = std::collections::HashSet::new(); set.insert(x.clone());
-                    if !set.contains(sa) { rec.oracle_fail("hash-not-slice-like HashSet<SharedString> lookup by &str fails".to_string()); }
+                    if !found { rec.oracle_fail("hash-not-slice-like HashSet<SharedString> lookup by &str fails".to_string()); }
+                    drop(t);
+                    for e in ledger::window(win) {
+                        if e.frees == 0 && e.align == 8 { rec.oracle_fail(format!("leak comparison of two strings: block of {} bytes never freed", e.size)); }
+                        if e.mismatch { rec.oracle_fail(format!("layout-mismatch allocated {}/{} freed as {}/{}", e.size, e.align, e.free_size, e.free_align)); }
+                    }
                     rec.nontrivial = true;
                 }
                 ("by.debytes", 3) => {
                     let b = unhex(w[2]);
                     let as_str = std::str::from_utf8(&b).ok();
-                    let r: Option<Result<SharedBytes, de::Error>> = match (w[1], as_str) {
-                        ("de_str", Some(s)) => Some(serde::Deserialize::deserialize(de::D(de::Feed::Str(s)))),
-                        ("de_string", Some(s)) => Some(serde::Deserialize::deserialize(de::D(de::Feed::String(s.to_string())))),
-                        ("de_bytes", _) => Some(serde::Deserialize::deserialize(de::D(de::Feed::Bytes(&b)))),
-                        ("de_bytebuf", _) => Some(serde::Deserialize::deserialize(de::D(de::Feed::ByteBuf(b.clone())))),
-                        _ => None,
-                    };
-                    match r {
+                    let (r, win) = ledger::record(|| -> Option<Result<Vec<u8>, de::Error>> {
+                        let r: Option<Result<SharedBytes, de::Error>> = match (w[1], as_str) {
+                            ("de_str", Some(s)) => Some(serde::Deserialize::deserialize(de::D(de::Feed::Str(s)))),
+                            ("de_string", Some(s)) => Some(serde::Deserialize::deserialize(de::D(de::Feed::String(s.to_string())))),
+                            ("de_bytes", _) => Some(serde::Deserialize::deserialize(de::D(de::Feed::Bytes(&b)))),
+                            ("de_bytebuf", _) => Some(serde::Deserialize::deserialize(de::D(de::Feed::ByteBuf(b.clone())))),
+                            _ => None,
+                        };
+                        r.map(|x| x.map(|s| { let c = s.clone(); drop(s); c.to_vec() }))
+                    });
+                    match &r {
                         None => rec.op(line.clone(), "bad-op"),
-                        Some(Ok(s)) => { rec.op(line.clone(), format!("ok {}", hex(&s))); if s[..] != b[..] { rec.oracle_fail(format!("content-differs serde {} of {} yields {}", w[1], w[2], hex(&s))); } }
+                        Some(Ok(s)) => { rec.op(line.clone(), format!("ok {}", hex(s))); if s[..] != b[..] { rec.oracle_fail(format!("content-differs serde {} of {} yields {}", w[1], w[2], hex(s))); } }
                         Some(Err(e)) => { rec.op(line.clone(), "err"); rec.oracle_fail(format!("bytes-deserialize-rejected {} rejected {}: {}", w[1], w[2], e.0)); }
+                    }
+                    drop(r);
+                    for e in ledger::window(win) {
+                        if e.frees == 0 { rec.oracle_fail(format!("leak serde {} of {}: block of {} bytes never freed", w[1], w[2], e.size)); }
+                        if e.mismatch { rec.oracle_fail(format!("layout-mismatch allocated {}/{} freed as {}/{}", e.size, e.align, e.free_size, e.free_align)); }
                     }
                     rec.stat(format!("debytes/{}", w[1]));
                     rec.nontrivial = true;
                 }
-                _ => rec.op(line.clone(), "bad-op"),
+                _ => { rec.op(line.clone(), "bad-op"); rec.stat("op/malformed"); }
             }
         }
         // teardown: whatever the case left alive is dropped by its owner; then nothing may remain
